@@ -83,18 +83,19 @@ func c14sPeer(n string) peer.ID { return peer.ID("verif-peer-" + n) }
 
 func (e *c14sEnv) connect(name, peerName string) *c14sConn {
 	c := &c14sConn{name: name, p: c14sPeer(peerName), dir: network.DirInbound}
-	e.conns[name] = c
+	vs.Locked(func() { e.conns[name] = c; e.nConn++ })
 	e.cm.Notifee().Connected(nil, c)
-	e.nConn++
 	return c
 }
 
 func (e *c14sEnv) tag(p, tag string, v int) {
 	e.cm.TagPeer(c14sPeer(p), tag, v)
-	if e.tags[p] == nil {
-		e.tags[p] = map[string]int{}
-	}
-	e.tags[p][tag] = v
+	vs.Locked(func() {
+		if e.tags[p] == nil {
+			e.tags[p] = map[string]int{}
+		}
+		e.tags[p][tag] = v
+	})
 }
 
 func (e *c14sEnv) trim() {
